@@ -177,7 +177,7 @@ macro_rules! pinned {
 // The names below are those of format version 1.1 as published (contracts/FORMAT.md);
 // a symmetric change of the hashed spelling (writer and reader share the impl) keeps
 // every round trip and every near-miss comparison intact and is visible only here.
-// @h th_pinned_ints props=C06,C04 tier=quick kind=complete vars="closed terms: the 12 integer primitives" fns="impls/prim.rs:TypeHash (impl_prim_type_hash!)"
+// @h th_pinned_ints props=C06 tier=quick kind=complete vars="closed terms: the 12 integer primitives" fns="impls/prim.rs:TypeHash (impl_prim_type_hash!)"
 #[kani::proof]
 #[kani::unwind(20)]
 pub fn th_pinned_ints() {
@@ -195,7 +195,7 @@ pub fn th_pinned_ints() {
     pinned!(isize, It::S("isize"));
 }
 
-// @h th_pinned_misc props=C06,C04 tier=quick kind=complete vars="closed terms: f32, f64, bool, char, unit" fns="impls/prim.rs:TypeHash (impl_prim_type_hash!)"
+// @h th_pinned_misc props=C06 tier=quick kind=complete vars="closed terms: f32, f64, bool, char, unit" fns="impls/prim.rs:TypeHash (impl_prim_type_hash!)"
 #[kani::proof]
 #[kani::unwind(20)]
 pub fn th_pinned_misc() {
@@ -206,7 +206,7 @@ pub fn th_pinned_misc() {
     pinned!((), It::S("()"));
 }
 
-// @h th_pinned_nonzero props=C06,C04 tier=quick kind=complete vars="closed terms: the 12 non-zero integer types" fns="impls/prim.rs:TypeHash (impl_prim_type_hash!)"
+// @h th_pinned_nonzero props=C06 tier=quick kind=complete vars="closed terms: the 12 non-zero integer types" fns="impls/prim.rs:TypeHash (impl_prim_type_hash!)"
 #[kani::proof]
 #[kani::unwind(20)]
 pub fn th_pinned_nonzero() {
